@@ -444,6 +444,12 @@ class ModuleEnv:
     # ---- contracts at call sites ----------------------------------------------------------------
     def apply_contract(self, key, node, eng, st, recv=None, contract=None, args=None):
         c = contract if contract is not None else self.reg[key]
+        if contract is not None:
+            eng.assumed_used.add(f'{key} (local call model in the contract of {eng.qualname}: assumed)')
+        elif c.get('assumed'):
+            eng.assumed_used.add(f'{key} (assumed contract on {c.get("relpath")}:{c.get("qualname")})')
+        else:
+            eng.callee_used.add(key)
         order = list(c.get('order') or c.get('params', {}).keys())
         if args is None:
             args = [eng.ev(a, st) for a in node.args]
